@@ -256,8 +256,20 @@ func (e *Ev) callStatic(fn *types.Func, recv *Term, args []Term, n *ast.CallExpr
 				}
 			}
 			if mayWrite {
+				wholeHeap := false
+				for _, c := range b.clauses("modifies") {
+					for _, it := range splitTopSpaces(c.Text) {
+						if it == "*" || it == hl.Name || strings.HasPrefix(it, "allbut(") {
+							wholeHeap = true
+						}
+					}
+				}
 				outs = append(outs, func() {
 					nv := e.load(hl, n)
+					if !was && !wholeHeap {
+						// the callee wrote only the temporary (fields(p) items): not a frame write
+						delete(e.u.writes, hl.Name)
+					}
 					e.store(loc, nv, n)
 				})
 			} else {
